@@ -510,7 +510,7 @@ package updog
 //@   modifies heap ghost.fs; heap bbolt.DB.committed; heap bbolt.DB.commits; heap bbolt.DB.ncommits; heap bbolt.DB.wopen; heap bbolt.DB.closed
 //@   ensures [C16] existing_file_is_not_clobbered: fexists(old(fs), idx.filename) ==> err != nil && fs == old(fs)
 //@   ensures [C15,C16] file_released: !flocked(fs, idx.filename)
-//@   ensures [C16] other_files_untouched: forall q string :: q != idx.filename ==> (fexists(fs, q) <==> fexists(old(fs), q)) && fcontent(fs, q) == fcontent(old(fs), q)
+//@   ensures [C16] other_files_untouched: forall q string :: q != idx.filename ==> (fexists(fs, q) <==> fexists(old(fs), q)) && fcontent(fs, q) == fcontent(old(fs), q) && (flocked(fs, q) <==> flocked(old(fs), q))
 
 //@ func [C15,C16,C17,C01] OpenIndex(file, opts) (idx, err)
 //@   requires !flocked(fs, file)
